@@ -262,15 +262,17 @@ EXTRA = {
            'R14.4: start and end tag of a container element are written in one block with only non-throwing dump writers in between.',
     'C15': 'R15.1 also requires lossless operands (three known findings: fixInvalidChars in serialize). R15.4: Executor::hasToLog passes every internal message. '
            'R15.5: suppression state reported by several workers is merged (add, else update). R15.6: the three duplicate filters (per-file logger, executor, final logger) key on '
-           'ErrorMessage::toString with the same Settings members.',
+           'ErrorMessage::toString with the same Settings members. R15.7: the frame reader takes the last (free-text) part as the remainder. R15.8: frame parts before the last are numbers '
+           '(two known findings: file names with a tab).',
     'C16': 'The protected set of a mutex is the union of the majority set and the fields some method modifies under the lock (contradiction rule); pointers to protected '
-           'elements must not outlive the lock scope.',
+           'elements must not outlive the lock scope. R16.5 also: functions that use Executor::mErrorLogger are called from worker-reachable code only by SyncLogForwarder.',
     'C17': 'R17.4: function-local statics reachable from CppCheck::check are not initialised from parameters, locals or this. R17.5: the TU-relative Suppression::fileIndex is read '
            'only by the per-unit comment processing.',
     'C18': 'R18.5: no commutative accumulation of sub-hashes. R18.6: the key includes the name of every loaded file. R18.1/R18.2 cover the helpers of the key function. R18.7: '
            'AnalyzerInformation::reopen writes the stored content back unchanged. R18.8: the files.txt lookup returns a tail match only when no entry has exactly the path.',
     'C19': 'R19.2 also requires Settings::includePaths in the key. R19.4: option flags are position-coded or use distinct literal markers. R19.5: the suppression dump used '
-           'for the key omits inline suppressions only.',
+           'for the key omits inline suppressions only. R19.3/R19.4 follow the helpers calculateHash calls in its file. R19.6: no string stream of the key composition is constructed from text '
+           'without ios_base::ate and then written from offset 0.',
     'C20': 'R20.5: in CppCheck::checkInternal no call that can report a finding is executed after a call that reaches AnalyzerInformation::close(). R20.6: reopen keeps the stored '
            'content. R20.7: nothing in cli/ or lib/ calls Settings::terminate() except the option parser (no soft stop that would close partial cache files).',
     'C21': 'R21.5: every removal from the list of pending read pipes is dominated by "handleRead returned false". R21.6: maps keyed by a pipe descriptor drop the entry where the '
@@ -281,12 +283,14 @@ EXTRA = {
            'Suppression::isSuppressed does not match on the file of the #define.',
     'C26': 'R26.6: the duplicate filter in front of the text / XML / SARIF writers does not depend on the output format (its dependence on --template is a known finding). R26.7: the '
            'level and locations of a SARIF result are computed from the finding itself, not looked up by rule id.',
-    'C27': 'R27.3: functions that select one ValueFlow::Value test the severity / certainty options only after the selection loop.',
+    'C27': 'R27.3: functions that select one ValueFlow::Value test the severity / certainty options only after the selection loop. R27.4: an option test passed as an argument to a '
+           'data-returning function is used there only as a pure gate, never combined with data to steer a search.',
     'C28': 'R28.4: CppCheck::getErrorMessages passes the caller\'s logger to every documentation emitter.',
     'C29': 'Containers with a user comparator that compares the pointers themselves count as address-ordered; key types that are template parameters are resolved through the '
            'call sites; appends to sequence containers and early exits count as order-capturing (one known finding: productParams).',
     'C34': 'R34.6: internal (ctuinfo) messages pass the executors\' gate unfiltered. R34.7: the whole-program stage deletes only its own temporary file, never the per-file ctu-info '
-           'files of the build dir; every non-trivial exit of executeAddonsWholeProgram has run the addons.',
+           'files of the build dir; every non-trivial exit of executeAddonsWholeProgram has run the addons. R34.8: AddonInfo members parsed from the JSON configuration are not overwritten by '
+           'the functions called after parsing.',
     'C36': 'R36.3: the grouping loop iterates the complete list built by the SAX handler (alias, order-only derivation, or a helper that keeps every element). R36.4: no groupby on '
            'unsorted input / dict keyed on a non-unique field of a finding. R36.5: the per-file page annotates every finding of a line on every path.',
     'C24': 'R24.2 counts Suppression::isSuppressed among the parent-side consumers; R24.3 requires add-or-merge on the failure path of addSuppression and a monotone (OR) merge in '
